@@ -244,16 +244,26 @@ func (s *vfStress) udpClient(wg *sync.WaitGroup, name string, port int, n int, r
 	}()
 	to := &net.UDPAddr{IP: net.ParseIP(s.la), Port: port}
 	var through int64
+	stalls := 0
 	if route != "" {
 		s.routedBy.Store(name, &through)
 	}
 	for i := 0; i < n; i++ {
 		id := fmt.Sprintf("%s-%d", name, i)
-		for w := 0; route == "" && int64(i)-atomic.LoadInt64(&got) > 32 && w < 3000; w++ {
+		w := 0
+		for ; route == "" && int64(i)-atomic.LoadInt64(&got) > 32 && w < 3000; w++ {
 			time.Sleep(100 * time.Microsecond)
 		}
-		for w := 0; route != "" && int64(i)-atomic.LoadInt64(&through) > 32 && w < 3000; w++ {
+		for ; route != "" && int64(i)-atomic.LoadInt64(&through) > 32 && w < 3000; w++ {
 			time.Sleep(100 * time.Microsecond)
+		}
+		if w >= 3000 {
+			stalls++
+			if stalls >= 3 {
+				break // answers have stopped coming: what was sent so far is what gets accounted
+			}
+		} else {
+			stalls = 0
 		}
 		sent.add(id)
 		rt := route
@@ -289,6 +299,7 @@ func (s *vfStress) tcpClient(wg *sync.WaitGroup, name string, port int, n int, s
 	defer conn.Close()
 	sentby := conn.LocalAddr().String()
 	var got int64
+	stalls := 0
 	done := make(chan struct{})
 	go func() {
 		r := bufio.NewReader(conn)
@@ -312,8 +323,17 @@ func (s *vfStress) tcpClient(wg *sync.WaitGroup, name string, port int, n int, s
 	}()
 	for i := 0; i < n; i++ {
 		id := fmt.Sprintf("%s-%d", name, i)
-		for w := 0; int64(i)-atomic.LoadInt64(&got) > 32 && w < 3000; w++ {
+		w := 0
+		for ; int64(i)-atomic.LoadInt64(&got) > 32 && w < 3000; w++ {
 			time.Sleep(100 * time.Microsecond)
+		}
+		if w >= 3000 {
+			stalls++
+			if stalls >= 3 {
+				break
+			}
+		} else {
+			stalls = 0
 		}
 		sent.add(id)
 		conn.Write(s.request(id, sentby, "TCP", ""))
